@@ -13,7 +13,7 @@ import typing as t
 from ml_pipeline_engine.dag_builders.annotation.marks import Input, InputOneOf, SwitchCase
 from ml_pipeline_engine.dag_builders.annotation.marks import RecurrentSubGraph, GenericInput, InputGeneric
 from ml_pipeline_engine.node import ProcessorBase, RecurrentProcessor, build_node
-from ml_pipeline_engine.node.enums import NodeTag
+from ml_pipeline_engine.node.enums import NodeTag, NodeType
 from rv import rt
 _M = rt.MISSING
 '''
@@ -58,12 +58,16 @@ def node_src(n):
     elif nm != 'none':
         lines.append(f'    name = {nm[1]!r}')
     if 'node_type' in n:
-        lines.append(f'    node_type = {n["node_type"]!r}')
+        nt = n['node_type']
+        if isinstance(nt, list) and nt and nt[0] == 'enum':
+            lines.append(f'    node_type = NodeType.{nt[1]}')      # an enum member instead of its value
+        else:
+            lines.append(f'    node_type = {nt!r}')
     if n.get('verbose_name'):
         lines.append(f'    verbose_name = {n["verbose_name"]!r}')
     mode = n.get('mode', 'thread')
-    if mode == 'inline':
-        lines.append('    tags = (NodeTag.non_async,)')
+    if mode in ('inline', 'async_tagged'):
+        lines.append('    tags = (NodeTag.non_async,)')     # async_tagged: a coroutine ignores the tag
     elif mode == 'process':
         lines.append('    tags = (NodeTag.process,)')
     elif mode == 'thread_tag':
@@ -113,7 +117,7 @@ def node_src(n):
     body_id = 'self.name' if nm != 'none' else repr(nid)
     if n.get('no_process'):
         lines.append('    process = None')
-    elif mode == 'async':
+    elif mode in ('async', 'async_tagged'):
         lines.append(f'    async def process({sig}):')
         if n.get('method_doc'):
             lines.append(f'        """{n["method_doc"]}"""')
@@ -132,16 +136,22 @@ def generic_src(n):
     """A node derived with build_node from a generic base class (n['generic_of'] = base id)."""
     nid = n['id']
     deps = ', '.join(f'{p}={mark_src(m)}' for p, m in n.get('params', []))
-    args = [n['generic_of'], f'node_name={nid!r}', f'class_name={("Generic" + nid)!r}']
+    # build_node registers the class under class_name in the engine's module globals: keep it unique per program
+    args = [n['generic_of'], f'node_name={nid!r}', f'class_name={("Generic" + nid + "_" + n.get("_uniq", ""))!r}']
     if deps:
         args.append(deps)
     return f'{nid} = build_node({", ".join(args)})'
 
 
-def render(prog):
+def render(prog, uniq=None):
     parts = [HEADER]
+    if uniq is None:
+        uniq = hashlib.sha1(json.dumps({k: v for k, v in prog.items() if k != 'tags'}, sort_keys=True,
+                                       default=str).encode()).hexdigest()[:8]
     for nid in prog['order']:
         n = prog['nodes'][nid]
+        if n.get('generic_of'):
+            n = dict(n, _uniq=uniq)
         if n.get('raw_src'):
             parts.append(n['raw_src'])
         else:
@@ -152,10 +162,11 @@ def render(prog):
 
 
 def load(prog, name=None):
-    src = render(prog)
-    digest = hashlib.sha1(src.encode()).hexdigest()[:12]
     _counter[0] += 1
+    digest = hashlib.sha1(render(prog).encode()).hexdigest()[:12]
     modname = name or f'rvgen_{digest}_{_counter[0]}'
+    # build_node registers generic classes by name in the engine's module: unique per materialisation
+    src = render(prog, uniq=f'{digest[:6]}_{_counter[0]}')
     filename = f'<rvgen/{modname}.py>'
     linecache.cache[filename] = (len(src), None, src.splitlines(True), filename)
     mod = types.ModuleType(modname)
